@@ -474,7 +474,7 @@ def build(tier, seed):
         'bounds': {'mutator_depth': depth, 'max_len': L, 'alphabet': [-1, 0, 2], 'registry_array_functions': len(REG),
                    'registry_object_functions': len(OBJ), 'excluded': EXCLUDE, 'uncovered_public_callables': uncovered()},
         'required_classes': ['A:constructor', 'A:reset_values', 'A:list', 'A:i64', 'A:transition-changed-values', 'A-cluster:time_match-shifted',
-                             'B:returned', 'B:raised-both-times', 'B:list-input', 'B:int-input', 'B:history', 'B:A-B-A', 'B:A-B-A-records', 'B:after-every-edit'],
+                             'B:returned', 'B:raised-both-times', 'B:list-input', 'B:int-input', 'B:history', 'B:A-B-A', 'B:A-B-A-records', 'B:after-every-edit', 'B:buffer-refilled-in-place'],
         'assumptions': ['purity is decided for the functions in the explicit registry; public callables in neither the registry nor the exclusion '
                         'list are reported under bounds.uncovered_public_callables',
                         'a function that raises for an input must raise again on the second call and still leave its input unchanged'],
@@ -835,6 +835,37 @@ def check_call(r, name, fn, args, snap_of0, sub, alt_args=None):
             r.fail('purity.not-repeatable', dict(sub, sequence='f(A), f(A), f(B), f(A)'),
                    '%s returns a different result for the same argument after an intervening call with another argument of the same length' % name,
                    observed=third[1], expected=res[0][1])
+    # the caller's buffers refilled IN PLACE with another record between two calls (same array objects, other content): the answer is
+    # the one for the content (a memo that recognises its argument by object identity answers for the old content)
+    if (alt_args is not None and res[0][0] == 'ok' and res[1][0] == 'ok' and len(args) == len(alt_args)
+            and all(isinstance(a_, np.ndarray) and isinstance(b_, np.ndarray) and a_.shape == b_.shape and a_.dtype == b_.dtype
+                    for a_, b_ in zip(args, alt_args))):
+        r.evals += 3
+        try:
+            want = ('ok', copy.deepcopy(fn(*alt_args)))
+        except Exception as e:   # noqa
+            want = ('exc', type(e).__name__)
+        saved = [a_.copy() for a_ in args]
+        try:
+            try:
+                fn(*args)                       # the last call the function has seen is one with THESE objects
+            except Exception:   # noqa
+                pass
+            for a_, b_ in zip(args, alt_args):
+                a_[...] = b_
+            try:
+                got = ('ok', copy.deepcopy(fn(*args)))
+            except Exception as e:   # noqa
+                got = ('exc', type(e).__name__)
+        finally:
+            for a_, s_ in zip(args, saved):
+                a_[...] = s_
+        r.n_cmp += 1
+        r.cls('B:buffer-refilled-in-place')
+        if got[0] != want[0] or (got[0] == 'ok' and not bits_equal(got[1], want[1])):
+            r.fail('purity.not-repeatable', dict(sub, sequence='f(A), A[...] = B, f(A) vs f(B)'),
+                   '%s: after the argument arrays were refilled in place with another record the result is not the one for their new content' % name,
+                   observed=got[1], expected=want[1])
     r.n_cmp += 1
     if res[0][0] != res[1][0]:
         r.fail('purity.not-repeatable', sub, '%s: first call %s, second call %s' % (name, res[0][0], res[1][0]))
